@@ -549,6 +549,8 @@ def _newton_sym(n, uname, local):
     if isinstance(n, ast.Attribute):
         if ast.unparse(n) in ('self.uext',):
             return U
+        if ast.unparse(n) in ('self.Id',):
+            return sp.Integer(1)
         return sp.Symbol(ast.unparse(n))
     if isinstance(n, ast.BinOp):
         a, b = _newton_sym(n.left, uname, local), _newton_sym(n.right, uname, local)
@@ -739,6 +741,116 @@ def r11(ctx, R):
                 R.check(ok, c, w, f'u - {fac}*({str(Fs[-1])[:110]}) - rhs', f'g - (u - {fac}*F - rhs) = {str(ds[-1])[:140]}' if not ok else 'equal')
     if n_dec < 10:
         raise AnalysisError(f'C12.R11: only {n_dec} Newton residuals decided')
+
+
+_DIRECT = {'cg', 'gmres', 'bicgstab', 'spsolve', 'solve', 'minres'}
+
+
+def _unpacked_locals(fn, base):
+    """`a, b = self.x, self.y` and `a, b = self.x, self.y`-style tuple unpackings of single-assigned names join the substitution table"""
+    out = dict(base)
+    for s in ast.walk(fn):
+        if isinstance(s, ast.Assign) and len(s.targets) == 1 and isinstance(s.targets[0], ast.Tuple) and isinstance(s.value, ast.Tuple) and len(s.targets[0].elts) == len(s.value.elts):
+            for t, v in zip(s.targets[0].elts, s.value.elts):
+                if isinstance(t, ast.Name) and t.id not in out:
+                    out[t.id] = v
+    return out
+
+
+@rule('C12', 'C12.R12', 'a direct solve inverts the operator of eval_f: where solve_system* hands (M, b) to a linear solver outside any iteration, M u = u - factor*L u and b = rhs + factor*c for the right-hand side F(u) = L u + c that eval_f of the SAME class assigns to the matching component; a closed-form return E(rhs, factor) satisfies E - factor*F(E) - rhs = 0 (symbolic, element-wise view, operators as linear atoms)', floor=14)
+def r12(ctx, R):
+    import sympy as sp
+    repo = ctx.repo
+    U, RHS = sp.Symbol('u'), sp.Symbol('rhs')
+    n_dec = 0
+    for ci in _problems(repo):
+        for name, fn in ci.methods.items():
+            if not name.startswith('solve_system') or len(fn.args.args) < 3:
+                continue
+            ef = repo.resolve(ci, 'eval_f')
+            if not ef:
+                continue
+            par = {}
+            for n in ast.walk(fn):
+                for ch in ast.iter_child_nodes(n):
+                    par[ch] = n
+
+            def in_loop(n):
+                while n in par:
+                    n = par[n]
+                    if isinstance(n, (ast.While, ast.For)):
+                        return True
+                return False
+
+            sites = [c for c in ast.walk(fn) if isinstance(c, ast.Call) and (c.func.attr if isinstance(c.func, ast.Attribute) else getattr(c.func, 'id', '')) in _DIRECT and len(c.args) >= 2 and not in_loop(c)]
+            closed = []
+            for r in [r for r in ast.walk(fn) if isinstance(r, ast.Return) and r.value is not None and not in_loop(r)]:
+                blk = par.get(r)
+                body = next((b for b in (getattr(blk, 'body', None), getattr(blk, 'orelse', None)) if isinstance(b, list) and r in b), None)
+                if body is None or any(isinstance(x, (ast.While, ast.For, ast.AugAssign)) for x in body[:body.index(r)]):
+                    continue
+                e = r.value
+                if isinstance(e, ast.Name):
+                    prev = [x.value for x in body[:body.index(r)] if isinstance(x, ast.Assign) and len(x.targets) == 1 and isinstance(x.targets[0].value if isinstance(x.targets[0], ast.Subscript) else x.targets[0], ast.Name) and (x.targets[0].value if isinstance(x.targets[0], ast.Subscript) else x.targets[0]).id == e.id]
+                    e = prev[-1] if prev else None
+                if e is not None and not any(isinstance(c, ast.Call) and (c.func.attr if isinstance(c.func, ast.Attribute) else getattr(c.func, 'id', '')) in (_DIRECT | {'dtype_u', 'u_exact', 'solve_system'}) for c in ast.walk(e)) and any(isinstance(m, ast.Name) and m.id in ('rhs', 'd') for m in ast.walk(e)):
+                    closed.append(e)
+            if not sites and not closed:
+                continue
+            w = f'{ci.module.relpath}:{ci.name}.{name}'
+            efn = ef[1]
+            parts = _rhs_parts(efn)
+            comp = {'solve_system': 'impl', 'solve_system_1': 'comp1', 'solve_system_2': 'comp2', 'solve_system_3': 'comp3'}.get(name)
+            cands = parts.get(comp) or (parts.get('full') if name == 'solve_system' else None)
+            c0 = f'{ci.name}.{name} :: solves u - factor*F(u) = rhs for the F of eval_f'
+            if not cands:
+                R.note(c0, w, f'not decided: eval_f of {ef[0].name} assigns no `{comp or "f"}` part in a single expression')
+                continue
+            euname = efn.args.args[1].arg
+            elocal = _unpacked_locals(efn, _single_locals(efn, (euname,)))
+            Fs = []
+            for e in cands:
+                try:
+                    Fs.append(_newton_sym(e, euname, elocal))
+                except (_Unk, RecursionError):
+                    pass
+            if not Fs:
+                R.note(c0, w, 'not decided: right-hand side of eval_f outside the vocabulary (FFT / helper call)')
+                continue
+            fac = sp.Symbol(fn.args.args[2].arg)
+            loc = _unpacked_locals(fn, _single_locals(fn, ()))
+            for c in sites:
+                callee = c.func.attr if isinstance(c.func, ast.Attribute) else c.func.id
+                cc = f'{ci.name}.{name} :: {callee}(M, b): M = I - factor*L, b = rhs + factor*c for F(u) = L u + c of eval_f'
+                try:
+                    M, b = _newton_sym(c.args[0], '__no_iterate__', loc), _newton_sym(c.args[1], '__no_iterate__', loc)
+                except (_Unk, RecursionError) as e:
+                    R.note(cc, w, f'not decided: operator outside the vocabulary ({str(e)[:50]})')
+                    continue
+                R.fn(w)
+                n_dec += 1
+                res = []
+                for F in Fs:
+                    F0 = F.subs(U, 0)
+                    res.append((sp.simplify(sp.expand(M * U - (U - fac * sp.expand(F - F0)))), sp.simplify(sp.expand(b - (RHS + fac * F0)))))
+                ok = any(a == 0 and bb == 0 for a, bb in res)
+                R.check(ok, cc, w, f'M u = u - {fac}*({str(sp.expand(Fs[-1] - Fs[-1].subs(U, 0)))[:80]}), b = rhs + {fac}*({str(Fs[-1].subs(U, 0))[:40]})', {'M u - (..)': str(res[-1][0])[:100], 'b - (..)': str(res[-1][1])[:100]} if not ok else 'equal')
+            for e in closed:
+                cc = f'{ci.name}.{name} :: closed-form return satisfies E - factor*F(E) = rhs'
+                try:
+                    E = _newton_sym(e, '__no_iterate__', loc)
+                except (_Unk, RecursionError) as ex:
+                    R.note(cc, w, f'not decided: closed form outside the vocabulary ({str(ex)[:50]})')
+                    continue
+                if not E.has(RHS):
+                    continue
+                R.fn(w)
+                n_dec += 1
+                ds = [sp.simplify(sp.expand(E - fac * F.subs(U, E) - RHS)) for F in Fs]
+                ok = any(d == 0 for d in ds)
+                R.check(ok, cc, w, f'E - {fac}*F(E) - rhs = 0 with F(u) = {str(Fs[-1])[:80]}', f'E = {str(E)[:80]}; defect {str(ds[-1])[:100]}' if not ok else 'equal')
+    if n_dec < 14:
+        raise AnalysisError(f'C12.R12: only {n_dec} direct solves / closed forms decided')
 
 
 @rule('C12', 'C12.R9', 'eval_f and the solver of one class embed the inner points in the SAME boundary values: where both prepare a scratch attribute of self (uext[0], uext[-1], ..), the entries with a fixed index are computed by the same expressions (found and repaired F29 on the semi-implicit Allen-Cahn front)', floor=3)
